@@ -390,6 +390,9 @@ def run(rep, tier):
     if miss:
         raise AnalysisBroken('nondeterminism scanner misses fixture patterns: %s' % sorted(miss))
     rep.add('R2', 'fixture:positive-control', True, 'hexsa/fixtures/nondet.cpp', '%d patterns recognised' % len(got), nontrivial=False)
+    # string pool words are a function of the literal alone (no byte beyond the string buffer is read): import of C01-R6
+    from . import c01
+    c01.rule_strings(c01._Rename(rep, {'R6': 'R4'}), idx)
     for tu in ('xcmp.cpp', 'hexasm.cpp'):
         hits = nondet.scan(idxs[tu], NAMESPACES, funcs={'main'})
         nd = [h for h in hits if h[1] not in ('mutable-global', 'function-static')]
